@@ -86,7 +86,11 @@ class C02(object):
             "groups with repeats and overlaps (extract when one group); half of the cases give the source object a history "
             "of 1-4 steps before the call (earlier marginal / marginalize / coalesce calls by index or name, renaming of "
             "the variables to other / permuted / overlapping names or none, replacement by its copy()) and the call is "
-            "judged against the names at the time of the call; the staged marginal is taken by index and by name; "
+            "judged against the names at the time of the call; the staged marginal is taken by index and by name; a third "
+            "of the calls leave rv_mode out (names when the object has names at that time, indices otherwise; also the "
+            "second stage of the staged marginal), the selection is passed as list / tuple / string of one-letter names; "
+            "the source's sample-space object is asked directly for the same coalesce / marginal / marginalize and its "
+            "answer is judged against the projection of the source space; "
             "non-trivial = the map merges at least two stored outcomes or drops a variable")
     tolerances = {'values': 'exact when all probabilities are dyadic and base is linear, else rtol 1e-9 / atol 1e-12 in the linear domain'}
     exhaustive = {}
@@ -110,6 +114,15 @@ class C02(object):
             else:
                 groups = rand_groups(rng, c, 1 if op == 'coalesce1' else rng.randint(1, 3))
                 c['op'] = {'kind': op, 'groups': groups, 'byname': bool(now_names) and rng.random() < 0.5}
+            # a third of the calls leave `rv_mode` out (the object's own mode decides: names when it has names,
+            # indices otherwise); the selection is a list, a tuple or - single-letter names - a string
+            c['op']['defmode'] = rng.random() < 0.35
+            if now_names is None and (c['names'] or any(st['do'] == 'rename' and st['names'] for st in c.get('history') or [])):
+                # names were set and have been cleared again: the object's own mode is asked more often
+                c['op']['defmode'] = c['op']['defmode'] or rng.random() < 0.5
+            if c['op']['defmode']:
+                c['op']['byname'] = bool(now_names)
+            c['op']['shape'] = rng.choice(['list', 'list', 'tuple', 'str'])
             yield c
 
     def shrink(self, case):
@@ -223,34 +236,80 @@ class C02(object):
         r.features += ['history=%d' % len(history), 'requery-after-rename=%s' % requery]
 
         byname = bool(op.get('byname')) and bool(names)
+        # `rv_mode` left out: "the value of `self._rv_mode` is consulted" - names for an object that has names at the
+        # time of the call, indices for one that has none.
+        defmode = bool(op.get('defmode'))
+        if defmode:
+            byname = bool(names)
+            # (objects whose names were set and later cleared used to stay in names mode and raised on every
+            # non-empty selection with rv_mode left out; repaired in dit, judged like everything else)
+            if names is None and (case.get('names') or any(st['do'] == 'rename' and st['names'] for st in history)):
+                r.features.append('mode=default-after-names-cleared')
         r.features.append('byname=%s' % byname)
+        r.features.append('mode=%s' % ('default' if defmode else 'explicit'))
         rv_mode = 'names' if byname else 'indices'
+        kw = {} if defmode else {'rv_mode': rv_mode}
+        shape = op.get('shape') or 'list'
+        if shape == 'str' and not (byname and all(isinstance(x, str) and len(x) == 1 for x in names)):
+            shape = 'list'
+        r.features.append('shape=%s' % shape)
 
         def nm(idx):
-            return [names[i] for i in idx] if byname else list(idx)
+            sel = [names[i] for i in idx] if byname else list(idx)
+            if shape == 'tuple':
+                return tuple(sel)
+            if shape == 'str':
+                return ''.join(sel)
+            return sel
+
+        def outer(gs):
+            return tuple(gs) if shape == 'tuple' else list(gs)
 
         # ---------------- implementation
         try:
             if kind == 'marginal':
-                m = d.marginal(nm(op['rvs']), rv_mode=rv_mode)
+                m = d.marginal(nm(op['rvs']), **kw)
                 idx = sorted(op['rvs'])
                 nested = False
             elif kind == 'marginalize':
-                m = d.marginalize(nm(op['rvs']), rv_mode=rv_mode)
+                m = d.marginalize(nm(op['rvs']), **kw)
                 idx = [i for i in range(n) if i not in op['rvs']]
                 nested = False
             elif kind == 'coalesce1':
-                m = d.coalesce([nm(op['groups'][0])], rv_mode=rv_mode, extract=True)
+                m = d.coalesce(outer([nm(op['groups'][0])]), extract=True, **kw)
                 idx = op['groups'][0]
                 nested = False
             else:
-                m = d.coalesce([nm(g) for g in op['groups']], rv_mode=rv_mode)
+                m = d.coalesce(outer([nm(g) for g in op['groups']]), **kw)
                 nested = True
         except Exception as e:  # noqa
             r.oracle_fail = '%s raised %s: %s on a valid selection' % (kind, type(e).__name__, str(e)[:200])
             r.detail = {'exception': exc_enum(e)}
             return r
         res_py = gen.obs_py(m, klass, nested=nested)
+
+        # ---------------- the same question put to the source's sample-space object (SampleSpace / CartesianProduct
+        # .coalesce / .marginal / .marginalize take indices); judged below against the projection of the source space
+        ss = d._sample_space
+        ss_cart = isinstance(ss, dit.samplespace.CartesianProduct)
+        ss_err = ss_list = None
+        try:
+            if kind == 'marginal':
+                s2 = ss.marginal(outer(op['rvs']))
+            elif kind == 'marginalize':
+                s2 = ss.marginalize(outer(op['rvs']))
+            elif kind == 'coalesce1':
+                s2 = ss.coalesce(outer([outer(op['groups'][0])]), extract=True)
+            else:
+                s2 = ss.coalesce(outer([outer(g) for g in op['groups']]))
+            ss_list = [gen.from_py_nested(o, klass) if nested else gen.from_py(o, klass) for o in s2]
+        except gen.UnreadableOutcome:
+            raise
+        except Exception as e:  # noqa
+            ss_err = '%s: %s' % (type(e).__name__, str(e)[:200])
+        if ss_cart:
+            inv = {sym: i for i, sym in enumerate(gen.UNIVERSE[klass])}
+            ss_alph = [set(inv[sym] for sym in a) for a in ss.alphabets]
         after = gen.obs_py(d, klass)
         after_names = d.get_rv_names()
 
@@ -328,6 +387,34 @@ class C02(object):
                     break
         if not fails and abs(sum(res_look) - sum(src_look)) > 1e-9:
             fails = 'total mass changed: %r -> %r' % (sum(src_look), sum(res_look))
+        if not fails:
+            # the sample-space object's own answer: the projection of the source space (a Cartesian product may
+            # answer a coalescing with repeated / overlapping variables by the product of the groups' alphabets)
+            sfail = None
+            ssk = 'coalesce' if kind.startswith('coalesce') else kind
+            if ss_err is not None:
+                sfail = 'raised %s on a valid selection' % ss_err
+            else:
+                skeys = [tuple(map(tuple, o)) if kind == 'coalesce' else tuple(o) for o in ss_list]
+                if len(set(skeys)) != len(skeys):
+                    sfail = 'lists a member twice: %s' % ss_list
+                elif not set(fib) <= set(skeys):
+                    sfail = ('lacks the projection %s of a source member'
+                             % (list(sorted(set(fib) - set(skeys))[0]),))
+                elif (kind in ('marginal', 'marginalize') or not ss_cart) and set(skeys) != set(fib):
+                    sfail = ('has the member %s that is not the projection of a source member'
+                             % (list(sorted(set(skeys) - set(fib))[0]),))
+                elif ss_cart:
+                    for key in skeys:
+                        parts = list(zip(key, groups)) if kind == 'coalesce' else [(key, idx)]
+                        if len(parts) != len(groups) or any(
+                                len(part) != len(g) or any(x not in ss_alph[i] for x, i in zip(part, g))
+                                for part, g in parts):
+                            sfail = 'has the member %s that is not made of the selected variables\' alphabets' % (list(key),)
+                            break
+            if sfail:
+                fails = 'sample space object: %s(%s) %s' % (ssk, groups if kind.startswith('coalesce') else op['rvs'], sfail)
+                r.site = 'SampleSpace.' + ssk
         if not fails and m.get_base() != d.get_base():
             fails = 'base changed'
         if not fails and m.is_sparse() != d.is_sparse():
@@ -370,6 +457,20 @@ class C02(object):
                     if not fails and list(a2.get_rv_names() or []) != [names[j] for j in J]:
                         fails = 'staged marginal (second stage by name) names: %s, expected %s' % (
                             a2.get_rv_names(), [names[j] for j in J])
+                if not fails and defmode:
+                    # the same with rv_mode left out in the second stage: the marginal carries the names of the
+                    # kept variables (names decide) or none (indices decide)
+                    a3 = m.marginal(nm(J) if names else nm(Jrel))
+                    oa3 = gen.obs_py(a3, klass)
+                    if oa3['space'] != ob['space'] or [o for o, _ in oa3['tab']] != [o for o, _ in ob['tab']]:
+                        fails = 'staged marginal (second stage without rv_mode) differs structurally from the direct one'
+                    else:
+                        for (o, x), (_, y) in zip(oa3['tab'], ob['tab']):
+                            if abs(lin(x) - lin(y)) > 1e-9:
+                                fails = 'staged marginal (second stage without rv_mode) P(%s)=%r, direct %r' % (o, x, y)
+                    if not fails and list(a3.get_rv_names() or []) != list(b.get_rv_names() or []):
+                        fails = 'staged marginal (second stage without rv_mode) names: %s, expected %s' % (
+                            a3.get_rv_names(), b.get_rv_names())
             except Exception as e:  # noqa
                 fails = 'staged marginal raised %s: %s' % (type(e).__name__, str(e)[:100])
         r.oracle_fail = fails
